@@ -6,7 +6,7 @@
    repository / tag validity and the JSON decoders are universally quantified. *)
 From Coq Require Import String.
 From OCI Require Import Model.Mem Model.MemSpec Model.MemRel Model.MemAccept Proofs.MemInv Proofs.MemRefine Proofs.MemHistory
-  Proofs.MemFrame Proofs.MemCorollaries.
+  Proofs.MemFrame Proofs.MemCorollaries Model.NameSpec Model.Ref Proofs.NameSpec.
 
 (* Refinement over all histories, both configurations: when the manifests pushed in the
    history do not form a digest cycle (none of them contains, directly or through the
@@ -263,3 +263,27 @@ Example C02_nontrivial_instance :
    Ok (RDesc (sdesc (s "a/b") (s "m") (s "m"))); Ok (RDesc (sdesc (s "a/b") (s "m") (s "m")));
    Ok RUnit; Err e_manifest_unknown].
 Proof. vm_compute. reflexivity. Qed.
+
+(* Name validity.  The theorems above hold for every validity predicate; the correspondence
+   runs both models with the grammars of the specifications (Model/NameSpec.v), not with
+   what the library's validators answer.  The three statements below say that the model of
+   those validators as they are now (Model/Ref.v: ociref.IsValidRepository, IsValidTag,
+   go-digest's Validate with every registered hash linked) accepts exactly these grammars,
+   for every string: on the unchanged library nothing is lost by not asking the validators,
+   and a validator whose verdict changes on any name is at variance with what the C02 models
+   are run with. *)
+Theorem C02_names_repository :
+  forall w, is_valid_repository w = Ok (spec_valid_repo w).
+Proof. exact is_valid_repository_is_spec. Qed.
+
+Theorem C02_names_tag :
+  forall w, is_valid_tag w = Ok (spec_valid_tag w).
+Proof. exact is_valid_tag_is_spec. Qed.
+
+Theorem C02_names_digest :
+  forall d, is_valid_digest (fun _ => true) d = Ok (spec_valid_digest d).
+Proof. exact is_valid_digest_is_spec. Qed.
+
+Print Assumptions C02_names_repository.
+Print Assumptions C02_names_tag.
+Print Assumptions C02_names_digest.
